@@ -850,13 +850,18 @@ func c10Verbose(e *Env) {
 	}
 	// R10.6 count
 	coll := findCalls(fn, load.RuntimeMod+"/grouperror.Collection", true)
-	okc := false
+	okc, okEdge := false, false
+	fb, hasFb := failureEdgeBlock(fn, perr)
 	for _, c := range coll {
 		if ts.has(c.Common().Args[0]) {
 			okc = true
+			if hasFb && len(fb.Preds) == 1 && fb.Dominates(c.Block()) || failureEdgeViaCell(fn, perr, c) {
+				okEdge = true
+			}
 		}
 	}
 	r.Check(okc, "R10.6", key+"#count", "the printed error count is len(grouperror.Collection(<the error that is returned>))")
+	r.Check(okEdge, "R10.6", key+"#count-on-failure", "the count is reported on the failure edge of the decorated step's error (a failing step is not announced as passed, a passing one not as failed with 0 errors)")
 }
 
 func passesThroughCall(v ssa.Value, ts *taintSet) bool {
@@ -1376,6 +1381,35 @@ func c10Printing(e *Env) {
 // successEdgeViaCell: like successEdge, for an error that lives in a local cell written by a closure
 // (err is assigned inside func(){…}() and tested after it): the tested value is a load of the cell
 // the error was stored into.
+// failureEdgeViaCell: like successEdgeViaCell for the other outcome (the error is known to be non-nil).
+func failureEdgeViaCell(fn *ssa.Function, errv ssa.Value, ins ssa.Instruction) bool {
+	cells := map[ssa.Value]bool{}
+	bind := freeVarBindings(fn)
+	allInstrs(fn, func(_ *ssa.Function, in ssa.Instruction) {
+		if st, ok := in.(*ssa.Store); ok && st.Val == errv {
+			cells[cellOf(st.Addr, bind)] = true
+		}
+	})
+	for _, b := range fn.Blocks {
+		iff, ok := b.Instrs[len(b.Instrs)-1].(*ssa.If)
+		if !ok {
+			continue
+		}
+		v, nonNilOnTrue, ok := nilTest(iff.Cond)
+		if !ok {
+			continue
+		}
+		ld, ok := v.(*ssa.UnOp)
+		if !ok || !cells[cellOf(ld.X, bind)] {
+			continue
+		}
+		if edgeDominates(b, nonNilOnTrue, ins) {
+			return true
+		}
+	}
+	return false
+}
+
 func successEdgeViaCell(fn *ssa.Function, errv ssa.Value, ins ssa.Instruction) bool {
 	// cells that receive errv (in fn or its closures)
 	cells := map[ssa.Value]bool{}
